@@ -726,6 +726,11 @@ class Interp:
                 return getattr(base, m)(*args)
             if base is dict and m == "fromkeys":
                 return dict.fromkeys(*args)
+            if isinstance(base, Synth) and getattr(base, "__dl_class__", None) and f"{base.__dl_class__}.{m}" in self.mod.funcs:
+                # a host object fabricated by the checker: its methods are the class's functions of this module
+                fn_ = self.mod.funcs[f"{base.__dl_class__}.{m}"]
+                static = any(isinstance(d, ast.Name) and d.id == "staticmethod" for d in fn_.decorator_list)
+                return self._call(fn_, ([] if static else [base]) + list(args), kwargs)
             if type(base) in (int, bool) and m in ("bit_length", "bit_count", "conjugate", "is_integer") or type(base) is float and m in ("is_integer", "hex", "as_integer_ratio"):
                 return getattr(base, m)(*args)
             raise Unsupported(f"method {m} on {type(base).__name__}")
